@@ -291,6 +291,90 @@ def stage_symbols(ctx: Ctx, progs):
                                   {'src': src, 'scope': repr(f), 'missing': sorted(wf - hf), 'extra': sorted(hf - wf)})
 
 
+SHDR = ('From Coq Require Import List Bool Arith.\nFrom PF Require Import models.Symbols.\nImport ListNotations.\n'
+        'Fixpoint nl_eqb (a b : list nat) : bool := match a, b with [], [] => true | x :: a\', y :: b\' => Nat.eqb x y && nl_eqb a\' b\' | _, _ => false end.\n')
+
+
+def scope_events(f):
+    """(kind, name) events of the nodes of the scope of f in walk order, derived independently of scope_symbols from the node set of the scope walk"""
+    is_comp = isinstance(f.a, COMPS)
+    evs = []
+    for g in f.walk(True, scope=True):
+        a = g.a
+        if isinstance(a, ast.Name):
+            if isinstance(a.ctx, ast.Load):
+                evs.append(('KLoad', a.id))
+            elif isinstance(a.ctx, ast.Del):
+                evs.append(('KDel', a.id))
+            elif is_comp and g.parent is not None and isinstance(g.parent.a, ast.NamedExpr) and g.pfield.name == 'target':
+                evs.append(('KWalrus', a.id))
+            else:
+                evs.append(('KStore', a.id))
+        elif isinstance(a, ast.arg):
+            evs.append(('KStore', a.arg))
+        elif isinstance(a, (ast.FunctionDef, ast.AsyncFunctionDef, ast.ClassDef)):
+            if a is not f.a:
+                evs.append(('KStore', a.name))
+        elif isinstance(a, ast.AugAssign):
+            if isinstance(a.target, ast.Name):
+                evs.append(('KLoad', a.target.id))
+        elif isinstance(a, ast.Import):
+            for al in a.names:
+                evs.append(('KStore', al.asname or al.name.split('.', 1)[0]))
+        elif isinstance(a, ast.ImportFrom):
+            if not (len(a.names) == 1 and a.names[0].name == '*'):
+                for al in a.names:
+                    evs.append(('KStore', al.asname or al.name))
+        elif isinstance(a, (ast.TypeVar, ast.ParamSpec, ast.TypeVarTuple)):
+            evs.append(('KStore', a.name))
+        elif isinstance(a, (ast.ExceptHandler, ast.MatchAs, ast.MatchStar)):
+            if a.name:
+                evs.append(('KStore', a.name))
+        elif isinstance(a, ast.MatchMapping):
+            if a.rest:
+                evs.append(('KStore', a.rest))
+        elif isinstance(a, ast.Global):
+            evs += [('KGlobal', n) for n in a.names]
+        elif isinstance(a, ast.Nonlocal):
+            evs += [('KNonlocal', n) for n in a.names]
+    return is_comp, evs
+
+
+def stage_symbols_model(ctx: Ctx, progs):
+    """models/Symbols.v classify == scope_symbols(full=True): the seven dictionaries, key by key IN ORDER, for every scope root of the programs"""
+    import fst
+    terms, meta = [], []
+    for src in progs:
+        try:
+            root = fst.FST(src, 'exec')
+        except Exception:
+            continue
+        scopes = [root] + [n.f for n in ast.walk(root.a) if isinstance(n, SCOPES)]
+        for f in scopes[:ctx.scale(12, 200)]:
+            try:
+                got = f.scope_symbols(full=True)
+                is_comp, evs = scope_events(f)
+            except Exception as e:
+                ctx.violation(f'scope_symbols-raise|{type(f.a).__name__}', 'scope_symbols() raised', {'src': src, 'scope': repr(f), 'error': repr(e)[:300]})
+                continue
+            if len(evs) > 250:
+                continue
+            ids = {}
+            for _, n in evs:
+                ids.setdefault(n, len(ids))
+            for cat in got.values():
+                for n in cat:
+                    ids.setdefault(n, len(ids))
+            lst = lambda names: '[' + '; '.join(str(ids[n]) for n in names) + ']'
+            ev_l = '[' + '; '.join(f'({k}, {ids[n]})' for k, n in evs) + ']'
+            fields = [('s_load', 'load'), ('s_store', 'store'), ('s_del', 'del'), ('s_global', 'global'), ('s_nonlocal', 'nonlocal'), ('s_local', 'local'), ('s_free', 'free')]
+            terms.append(f'let s := classify {cbool(is_comp)} {ev_l} in ' + ' && '.join(f'nl_eqb ({c} s) {lst(list(got[k]))}' for c, k in fields))
+            meta.append({'src': src, 'scope': repr(f), 'comprehension_root': is_comp, 'events': evs, 'real': {k: list(v) for k, v in got.items()}})
+            ctx.tick(('syms-model', src, repr(f)), 'symbols-model:' + type(f.a).__name__)
+    failed = coq_eval_bools('C16_symbols', SHDR, terms, shard=60)
+    ctx.correspondence('models/Symbols.v classify (events re-derived from the scope walk) == the seven dictionaries of scope_symbols(full=True), keys in insertion order', len(terms), [meta[i] for i in failed])
+
+
 def run(ctx: Ctx):
     ctx.rule = ('hand-written scope programs (nested functions/classes/lambdas/comprehensions, global/nonlocal, imports, augmented assignment, exception and pattern-capture names, '
                 'annotations, defaults, decorators, walrus in nested comprehensions) + corpus + generated programs. (1) every scope root: node set of walk(True, scope=True, self_=False) '
@@ -303,6 +387,7 @@ def run(ctx: Ctx):
     progs = SCOPE_PROGS + corpus(ctx.rng, gen=ctx.scale(30, 250))
     run_guarded(ctx, stage_scope_walk, progs)
     run_guarded(ctx, stage_symbols, progs)
+    run_guarded(ctx, stage_symbols_model, progs)
 
 
 def replay(path):
